@@ -242,8 +242,8 @@ def doc_patterns():
 
 class C19(Prop):
     id = 'C19'
-    quick_cases = 40
-    thorough_cases = 600
+    quick_cases = 60
+    thorough_cases = 2000
     rule = ('random charts (code inside the modelled subset, no eventless loops) × feature files of 4–6 scenarios × 4–10 '
             'steps written in the documented spelling of the predefined steps (send with and without parameter, wait, '
             'do nothing, repeat; every `then` step, asserting true and false facts alike, unknown state names, then '
